@@ -174,6 +174,10 @@ func (pp *ppipe) saveState(src string, st cursor.State) error {
 	}
 
 	pos, err := pp.curPos2JrnlPos(src, st.Pos)
+	if err == nil && pp.deleted {
+		// a worker that finishes its write after the deletion must not bring the positions file back
+		err = errors2.NotFound
+	}
 	if err == nil {
 		pd.Pos = pos
 		pd.curId = st.Id
